@@ -52,8 +52,8 @@ add("C18", "exploration",
     "trusted: reference model; script reply conversion is not judged here",
     "reference-model differential monitor over multi-connection histories", "E1", "DESIGN.md 7/C18")
 add("C19", "exploration",
-    "full cursor iterations of SCAN/HSCAN/SSCAN/ZSCAN under an adversary that adds/deletes non-stable elements between calls, all COUNT/MATCH/TYPE forms; containment, no-phantom, filter and bounded-termination oracles",
-    "trusted: own glob matcher; the adversary's positional heuristics (byte order) are only heuristics - random deletions are always included",
+    "full cursor iterations of SCAN/HSCAN/SSCAN/ZSCAN under an adversary that adds/deletes non-stable elements between calls (by byte order around the last page, at random, and aimed at the element visited next / returned last in a learned visiting order), all COUNT/MATCH/TYPE forms; containment, no-phantom, filter and bounded-termination oracles",
+    "trusted: own glob matcher; the adversary's positional heuristics (byte order, learned visiting order) are only heuristics - random deletions are always included",
     "history monitor with stable-subset containment oracle under adversarial interleaving", "E1", "DESIGN.md 7/C19")
 
 add("C02", "exploration",
